@@ -79,3 +79,10 @@ ENTRIES += [
 ENTRIES += [
     B('regress-directory-glob-whole-path', "        return fnmatch.fnmatchcase(test_path, base_path + '*')", "        return fnmatch.fnmatchcase(test_path, base_path)", 'C02-D2', 'wpull/url.py'),
 ]
+
+DL = 'wpull/application/tasks/download.py'
+ENTRIES += [
+    B('strong-redirects-not-wired', "            strong_redirects=args.strong_redirects,\n", "", 'C02-D3', DL),
+    B('strong-redirects-wrong-option', "            strong_redirects=args.strong_redirects,\n", "            strong_redirects=args.span_hosts,\n", 'C02-D3', DL),
+    N('strong-redirects-positional-order', "            post_data=post_data,\n            strong_redirects=args.strong_redirects,\n", "            strong_redirects=args.strong_redirects,\n            post_data=post_data,\n", DL),
+]
